@@ -482,7 +482,7 @@ func (c *Compiler) isFeatureValid(m parse.Node, n parse.Node, featTree map[strin
 	var enabled bool
 
 	// Build the <module-name>:<feature-name> for this feature
-	featName := m.Name() + ":" + n.Name()
+	featName := featureModuleName(m) + ":" + n.Name()
 
 	enabled = c.featureEnabled(featName)
 
@@ -796,6 +796,7 @@ func (c *Compiler) ProcessModuleIncludes(m parse.Node, submodules map[string]par
 			}
 		}
 		m.AddChildren(smod.ChildrenByType(parse.NodeImport)...)
+		m.AddChildren(smod.ChildrenByType(parse.NodeFeature)...)
 		m.AddChildren(smod.ChildrenByType(parse.NodeDataDef)...)
 		m.AddChildren(smod.ChildrenByType(parse.NodeAugment)...)
 	}
@@ -1165,7 +1166,18 @@ func (c *Compiler) CheckIfFeature(n parse.Node, parentStatus schema.Status) bool
 
 	c.assertReferenceStatus(n, feature, parentStatus)
 
-	return c.verifiedFeatureEnabled(mod.Name() + ":" + feature.Name())
+	return c.verifiedFeatureEnabled(featureModuleName(mod) + ":" + feature.Name())
+}
+
+// A feature declared in a submodule is a feature of the module the
+// submodule belongs to.
+func featureModuleName(mod parse.Node) string {
+	if mod.Type() == parse.NodeSubmodule {
+		if bt := mod.ChildByType(parse.NodeBelongsTo); bt != nil {
+			return bt.Name()
+		}
+	}
+	return mod.Name()
 }
 
 // Takes a parse.Node ErrorContext for a must / when node and extracts
